@@ -14,8 +14,10 @@ def run(ctx):
     s = ctx['seed'] + 8
     return run_parts(ctx, [
         Part('missing_patterns', 'corr_meta', 'run_missing', [s, 120 if q else 2500]),
+        Part('wrapper_code', 'corr_wrappergen', 'run', [s, 120 if q else 2500], count_exceptions=False),
         Part('joins', 'corr_joins', 'run', [s, 150 if q else 2000, None], specs={'missing_spec'}),
         Part('filter_pair', 'corr_filters', 'run_pairs', [s, 200 if q else 3000], specs={'fp_missing_spec'}),
+        Part('filter_pair_code', 'corr_pairgen', 'run', [s, 100 if q else 2000], count_exceptions=False),
         Part('apply_matcher', 'corr_matcher', 'run_matcher', [s, 60 if q else 1000]),
         Part('filter_candset', 'corr_matcher', 'run_candset', [s, 40 if q else 600]),
     ], RULE)
